@@ -16,6 +16,8 @@ import (
 	"errors"
 	"fmt"
 	"os"
+	"regexp"
+	"strings"
 	gotime "time"
 
 	"github.com/jackc/pgx/v5/pgconn"
@@ -34,6 +36,7 @@ import (
 	storagedriver "github.com/formancehq/ledger/internal/storage/driver"
 	ledgerstore "github.com/formancehq/ledger/internal/storage/ledger"
 	systemstore "github.com/formancehq/ledger/internal/storage/system"
+	"github.com/formancehq/ledger/pkg/features"
 )
 
 // ---- soft "unsupported": a read that the interpreter cannot serve falls back to the model ----
@@ -71,10 +74,12 @@ type fakeBucket struct {
 func (b fakeBucket) Migrate(ctx context.Context, db bun.IDB, opts ...migrations.Option) error {
 	return nil
 }
-func (b fakeBucket) HasMinimalVersion(ctx context.Context, db bun.IDB) (bool, error) { return true, nil }
-func (b fakeBucket) IsUpToDate(ctx context.Context, db bun.IDB) (bool, error)        { return true, nil }
-func (b fakeBucket) IsInitialized(context.Context, bun.IDB) (bool, error)            { return true, nil }
-func (b fakeBucket) GetLastVersion(ctx context.Context, db bun.IDB) (int, error)     { return 0, nil }
+func (b fakeBucket) HasMinimalVersion(ctx context.Context, db bun.IDB) (bool, error) {
+	return true, nil
+}
+func (b fakeBucket) IsUpToDate(ctx context.Context, db bun.IDB) (bool, error)    { return true, nil }
+func (b fakeBucket) IsInitialized(context.Context, bun.IDB) (bool, error)        { return true, nil }
+func (b fakeBucket) GetLastVersion(ctx context.Context, db bun.IDB) (int, error) { return 0, nil }
 func (b fakeBucket) GetMigrationsInfo(ctx context.Context, db bun.IDB) ([]migrations.Info, error) {
 	return nil, nil
 }
@@ -200,7 +205,7 @@ func (s *fakeSysStore) HardDeleteBucket(ctx context.Context, b string) error {
 	return s.inc.w.harnessErr("simpg: HardDeleteBucket unsupported")
 }
 func (s *fakeSysStore) Migrate(ctx context.Context, options ...migrations.Option) error { return nil }
-func (s *fakeSysStore) GetMigrator(options ...migrations.Option) *migrations.Migrator  { return nil }
+func (s *fakeSysStore) GetMigrator(options ...migrations.Option) *migrations.Migrator   { return nil }
 func (s *fakeSysStore) IsUpToDate(ctx context.Context) (bool, error)                    { return true, nil }
 
 // newRealDriver assembles the real storage driver of an incarnation.
@@ -214,30 +219,56 @@ type realFirst[T any, O any] struct {
 	real  common.PaginatedResource[T, O]
 	model common.PaginatedResource[T, O]
 	w     *World
+	l     *ledger.Ledger // when set: the statements of the read are audited against this ledger's features
+}
+
+// noteRefusal records that the real storage layer refused a read for a feature (missing-feature error, or the
+// invalid-query error the expansions use for it).
+func noteRefusal(w *World, ctx context.Context, err error) {
+	if err == nil {
+		return
+	}
+	if errors.Is(err, ledgerstore.ErrMissingFeature{}) || (errors.Is(err, common.ErrInvalidQuery{}) && strings.Contains(err.Error(), "feature ")) {
+		w.mu.Lock()
+		if w.refusals == nil {
+			w.refusals = map[string]string{}
+		}
+		w.refusals[taskKeyOf(ctx)] = err.Error()
+		w.mu.Unlock()
+	}
+}
+
+func (r realFirst[T, O]) ctx(ctx context.Context) context.Context {
+	if r.l != nil {
+		ctx = withReadLedger(ctx, r.l)
+	}
+	return softSQL(ctx)
 }
 
 func (r realFirst[T, O]) GetOne(ctx context.Context, q common.ResourceQuery[O]) (*T, error) {
-	out, err := r.real.GetOne(softSQL(ctx), q)
+	out, err := r.real.GetOne(r.ctx(ctx), q)
 	if isUnsupportedSQL(err) {
 		r.w.probe("read_fallback_to_model")
 		return r.model.GetOne(ctx, q)
 	}
 	r.w.probe("read_through_real_sql")
+	noteRefusal(r.w, ctx, err)
 	return out, err
 }
 
 func (r realFirst[T, O]) Count(ctx context.Context, q common.ResourceQuery[O]) (int, error) {
-	out, err := r.real.Count(softSQL(ctx), q)
+	out, err := r.real.Count(r.ctx(ctx), q)
 	if isUnsupportedSQL(err) {
 		r.w.probe("read_fallback_to_model")
 		return r.model.Count(ctx, q)
 	}
 	r.w.probe("read_through_real_sql")
+	noteRefusal(r.w, ctx, err)
 	return out, err
 }
 
 func (r realFirst[T, O]) Paginate(ctx context.Context, q common.PaginatedQuery[O]) (*paginate.Cursor[T], error) {
-	out, err := r.real.Paginate(softSQL(ctx), q)
+	out, err := r.real.Paginate(r.ctx(ctx), q)
 	if sqlTrace && err != nil {
 		fmt.Fprintf(os.Stderr, "SQLTRACE real Paginate error: %T %v (query %T %+v)\n", err, err, q, q)
 	}
@@ -246,5 +277,99 @@ func (r realFirst[T, O]) Paginate(ctx context.Context, q common.PaginatedQuery[O
 		return r.model.Paginate(ctx, q)
 	}
 	r.w.probe("read_through_real_sql")
+	noteRefusal(r.w, ctx, err)
 	return out, err
+}
+
+// realFirstRes: the same for a non-paginated resource (aggregated balances).
+type realFirstRes[T any, O any] struct {
+	real  common.Resource[T, O]
+	model common.Resource[T, O]
+	w     *World
+	l     *ledger.Ledger
+}
+
+func (r realFirstRes[T, O]) GetOne(ctx context.Context, q common.ResourceQuery[O]) (*T, error) {
+	out, err := r.real.GetOne(softSQL(withReadLedger(ctx, r.l)), q)
+	if isUnsupportedSQL(err) {
+		r.w.probe("read_fallback_to_model")
+		return r.model.GetOne(ctx, q)
+	}
+	r.w.probe("read_through_real_sql")
+	noteRefusal(r.w, ctx, err)
+	return out, err
+}
+
+func (r realFirstRes[T, O]) Count(ctx context.Context, q common.ResourceQuery[O]) (int, error) {
+	out, err := r.real.Count(softSQL(withReadLedger(ctx, r.l)), q)
+	if isUnsupportedSQL(err) {
+		r.w.probe("read_fallback_to_model")
+		return r.model.Count(ctx, q)
+	}
+	r.w.probe("read_through_real_sql")
+	noteRefusal(r.w, ctx, err)
+	return out, err
+}
+
+// ---- read audit (C35, read side) ----
+//
+// The simulated database knows which tables and columns a ledger's features leave empty: with MOVES_HISTORY
+// other than ON the service inserts no row into moves for that ledger, and with
+// MOVES_HISTORY_POST_COMMIT_EFFECTIVE_VOLUMES other than SYNC nothing fills post_commit_effective_volumes. A read
+// statement of the storage layer that selects from moves (or uses that column) on behalf of such a ledger can
+// only produce an answer that is silently wrong - the property demands a missing-feature refusal instead, which
+// the storage layer raises BEFORE it sends anything. So every statement sent under a read of ledger L is audited
+// here, whether or not the interpreter can then execute it.
+
+type readLedgerKeyT struct{}
+
+var readLedgerKey readLedgerKeyT
+
+func withReadLedger(ctx context.Context, l *ledger.Ledger) context.Context {
+	return context.WithValue(ctx, readLedgerKey, l)
+}
+
+type FeatureMisread struct {
+	Task    string
+	Ledger  string
+	Feature string
+	Value   string
+	SQL     string
+}
+
+var (
+	reFromMoves = regexp.MustCompile(`(?i)\b(from|join)\s+(\(\s*)?("?[\w-]+"?\.)?"?moves"?(\s|\)|$)`)
+	rePCEVCol   = regexp.MustCompile(`(?i)\bpost_commit_effective_volumes\b`)
+)
+
+func (w *World) auditRead(ctx context.Context, query string) {
+	l, _ := ctx.Value(readLedgerKey).(*ledger.Ledger)
+	if l == nil {
+		return
+	}
+	q := normSQL(query)
+	if !strings.HasPrefix(strings.ToLower(q), "select") && !strings.HasPrefix(strings.ToLower(q), "with") {
+		return
+	}
+	add := func(feature string) {
+		if len(q) > 300 {
+			q = q[:300] + "..."
+		}
+		w.mu.Lock()
+		w.misreads = append(w.misreads, FeatureMisread{Task: taskKeyOf(ctx), Ledger: l.Name, Feature: feature, Value: l.Features[feature], SQL: q})
+		w.mu.Unlock()
+	}
+	if reFromMoves.MatchString(q) {
+		w.probe("read_statement_on_moves")
+		if !l.HasFeature(features.FeatureMovesHistory, "ON") {
+			add(features.FeatureMovesHistory)
+			return
+		}
+	}
+	if rePCEVCol.MatchString(q) {
+		w.probe("read_statement_on_effective_volumes")
+		if !l.HasFeature(features.FeatureMovesHistoryPostCommitEffectiveVolumes, "SYNC") {
+			add(features.FeatureMovesHistoryPostCommitEffectiveVolumes)
+		}
+	}
 }
